@@ -236,6 +236,35 @@ fn compare(ctx: &Ctx, beh: &Value, reply: &Value) {
     }
 }
 
+/// C08: optimised and unoptimised engine must return exactly the same from every call
+fn compare_optdiff(ctx: &Ctx, beh: &Value, reply: &Value) {
+    let c1 = strip_iter_meta(&reply["compile"]);
+    let c2 = strip_iter_meta(&reply["compile2"]);
+    ctx.bump(0, "optdiff");
+    if c1 != c2 {
+        ctx.violation("optdiff", beh, &json!([]), "compile", c1, c2);
+        return;
+    }
+    let (r1, r2) = match (reply["res"].as_array(), reply["res2"].as_array()) {
+        (Some(a), Some(b)) if a.len() == b.len() => (a, b),
+        _ => return,
+    };
+    let cases = beh["cases"].as_array().cloned().unwrap_or_default();
+    let names = ["is_match", "replace0", "replace2", "tokenize", "analyze"];
+    for (k, (a, b)) in r1.iter().zip(r2.iter()).enumerate() {
+        let (sa, sb) = (strip_iter_meta(a), strip_iter_meta(b));
+        ctx.bump(0, "optdiff");
+        if sa != sb {
+            let s = cases.get(k / 5).map(|c| c["s"].clone()).unwrap_or(json!([]));
+            let mut obs = sb.clone();
+            if let Some(c) = a.get("cut").or(b.get("cut")) {
+                obs["cut"] = c.clone();
+            }
+            ctx.violation("optdiff", beh, &s, names[k % 5], sa, obs);
+        }
+    }
+}
+
 /// law pairs: the two spellings must agree with each other on the real code
 fn compare_pair(ctx: &Ctx, pair: &Value, reply: &Value) {
     let same = pair["same"].as_str().unwrap_or("m");
@@ -324,13 +353,15 @@ pub fn main(args: &[String]) -> i32 {
             match parse_b_line(&l) {
                 Some(beh) => {
                     id += 1;
-                    pending.push(job_of(&beh, id));
-                    if also_unopt && beh["comp"].as_str().unwrap_or("ok") == "ok" {
-                        let mut b2 = beh.clone();
-                        b2["unopt"] = json!(true);
-                        id += 1;
-                        pending.push(job_of(&b2, id));
+                    let mut j = job_of(&beh, id);
+                    if also_unopt {
+                        // the same source compiled with every compile-time optimisation switched off (C08)
+                        j["pat2"] = beh["pat"].clone();
+                        j["flags2"] = beh["flags"].clone();
+                        j["x2"] = beh["x"].clone();
+                        j["unopt2"] = json!(true);
                     }
+                    pending.push(j);
                 }
                 None => println!("REPLAY-BADLINE {}", &l[..l.len().min(200)]),
             }
@@ -370,6 +401,13 @@ pub fn main(args: &[String]) -> i32 {
             }
         }
         compare(&ctx, beh, &reply);
+        if job.get("unopt2").is_some() {
+            let mut b2 = beh.clone();
+            b2["unopt"] = json!(true);
+            let reply2 = json!({"compile": reply["compile2"], "res": reply["res2"]});
+            compare(&ctx, &b2, &reply2);
+            compare_optdiff(&ctx, beh, &reply);
+        }
         if job.get("pair").is_some() {
             let pair = &job["pair"];
             let reply2 = json!({"compile": reply["compile2"], "res": reply["res2"]});
